@@ -253,7 +253,7 @@ def flags(**on):
     return f
 
 
-def validate_traces(chk, trace_file, curve, flags=None, jobs=12, max_rejects=5, timeout=1500, cfgname="Trace"):
+def validate_traces(chk, trace_file, curve, flags=None, jobs=12, max_rejects=5, timeout=1500, cfgname="Trace", tag=""):
     """Validate a recorded NDJSON trace (many runs) against Trace.tla. Returns (runs_accepted, rejects).
     A rejected run is cut out and the rest is validated again, so that one rejection does not hide others."""
     flags = flags or {}
@@ -271,12 +271,12 @@ def validate_traces(chk, trace_file, curve, flags=None, jobs=12, max_rejects=5, 
     while pending and rnd <= max_rejects:
         jobsargs = []
         for i, ch in pending:
-            p = chk.path("chunk_%s_%d_%d.ndjson" % (curve, i, rnd))
+            p = chk.path("chunk%s_%s_%d_%d.ndjson" % (tag, curve, i, rnd))
             with open(p, "w") as f:
                 for run in ch:
                     for e in run:
                         f.write(json.dumps(e) + "\n")
-            jobsargs.append((p, curve, flags, chk.path("tv_%s_%d_%d" % (curve, i, rnd)), timeout, cfgname))
+            jobsargs.append((p, curve, flags, chk.path("tv%s_%s_%d_%d" % (tag, curve, i, rnd)), timeout, cfgname))
         nxt = []
         with cf.ThreadPoolExecutor(max_workers=jobs) as ex:
             results = list(ex.map(_validate_file, jobsargs))
